@@ -17,6 +17,7 @@ Definition refuses (cl : option nat) (bl : option N) (writes : list bstr) : Prop
 
 (* the render reports the failure: it returns the write error.  ([Crash e_index]
    is the panic of Registry.LineNumber inside errRecover when the position of
-   the failing node lies outside the recorded source -- defect I9, excluded by
-   C06's registry well-formedness; it is not a nil error either.) *)
+   the failing node lies outside the recorded source -- defect I9 and the message-part
+   positions of notes/applied/C12-msg-part-positions.diff, excluded by C06's registry
+   well-formedness; it is not a nil error either.) *)
 Definition surfaced (o : outcome unit) : Prop := o = Err e_write \/ o = Crash e_index.
